@@ -18,6 +18,7 @@ From Coq Require Import List Arith Bool NArith.
 From IocVerif Require Import Model.SyncMap Proofs.SyncMapProofs Model.Conc Proofs.RaceProofs.
 From IocVerif Require Import Proofs.RangeProofs.
 From IocVerif Require Import Model.ScanCheck Proofs.ScanCheckProofs.
+From IocVerif Require Import Model.Merge Proofs.MergeProofs.
 Import ListNotations.
 
 (* ---------- atomicity of the containers ---------------------------------------------------------------- *)
@@ -212,6 +213,27 @@ Proof.
   split; [vm_compute; reflexivity|]. destruct unlocked_run as [c Hrun].
   exists unlocked_sched, c, unlocked_trace. split; [exact Hrun|exact unlocked_race].
 Qed.
+
+(* ---------- the library's logger under concurrent use ---------------------------------------------------- *)
+
+(* What several goroutines that print through one logger (the cached syslog.Pref logger of App.Close's failing closers,
+   the root logger) owe: the output is an INTERLEAVING of their line sequences - every line whole, each goroutine's lines
+   in its program order, nothing lost or doubled, nothing that nobody printed.  `lines` = per goroutine the numbers of
+   the lines its calls print (numbers taken from a sequential reference run), `out` = the lines as they arrived, each as
+   (goroutine, number).  The check evaluated on the recorded output (Check_C20.log_ok, through merge_b) is EXACT: it
+   accepts precisely the interleavings. *)
+Theorem c20_log_output_is_interleaving : forall (lines : list (list nat)) (out : list (nat * nat)),
+  merge_b Nat.eqb lines out = true <-> Merge lines out.
+Proof. exact (merge_b_iff Nat.eqb Nat.eqb_eq). Qed.
+
+(* non-vacuity: two goroutines with two lines each; an interleaving is accepted; a spliced line (known to nobody: tag 2),
+   a lost line and two lines of one goroutine in the wrong order are rejected *)
+Example c20_example_log :
+  let lines := [[1; 2]; [3; 4]] in
+  (merge_b Nat.eqb lines [(1, 3); (0, 1); (0, 2); (1, 4)], merge_b Nat.eqb lines [(1, 3); (2, 0); (0, 2); (1, 4)],
+   merge_b Nat.eqb lines [(1, 3); (0, 1); (1, 4)], merge_b Nat.eqb lines [(1, 4); (0, 1); (0, 2); (1, 3)])
+  = (true, false, false, false).
+Proof. vm_compute. reflexivity. Qed.
 
 (* non-vacuity *)
 Example c20_example_lin :
